@@ -185,7 +185,7 @@ class NameGen:
 WEIGHTS = {
     'add_fp': 30, 'add_dir': 14, 'rm_file': 6, 'rm_dir': 4, 'add_link': 8, 'rm_link': 5,
     'add_symlink': 5, 'hide': 3, 'add_eltorito': 3, 'rm_eltorito': 1, 'add_isohybrid': 1,
-    'rm_isohybrid': 1, 'dup_pvd': 0.3, 'restart': 4, 'mass_dirs': 1, 'mass_files': 1, 'add_boot_file': 0, 're_add': 0,
+    'rm_isohybrid': 1, 'dup_pvd': 0.3, 'restart': 4, 'mass_dirs': 1, 'mass_files': 1, 'add_boot_file': 0, 're_add': 0, 'chain_dirs': 0,
 }
 
 
@@ -761,6 +761,63 @@ class OpGen:
             if not isdir:
                 self.next_blob += 1
             out.append(op)
+        return out or None
+
+    def g_chain_dirs(self):
+        """Macro-op: a chain of nested directories below the deepest directory there is, so that
+        histories reach the depth limits (8 levels; Rock Ridge relocation at logical depth 8 and 16)."""
+        m = self.m
+        r = self.ra
+        nss = self._targets()
+        out = []
+        cur = {}
+        for ns in nss:
+            lim = self._iso_maxdepth_for_dir() if ns == 'iso' else self.maxdepth
+            dirs = [d for d in m.dirs(ns) if m.depth(d) < lim]
+            if not dirs:
+                return None
+            deepest = max(m.depth(d) for d in dirs)
+            cur[ns] = r.choice([d for d in dirs if m.depth(d) >= deepest - 1])
+        k = r.choice((2, 3, 5, 8, 9))
+        lvl = m.cfg['level']
+        for i in range(k):
+            op = {'op': 'add_dir'}
+            for ns in nss:
+                lim = self._iso_maxdepth_for_dir() if ns == 'iso' else self.maxdepth
+                if m.depth(cur[ns]) + (1 if i else 0) > lim:
+                    continue
+                if ns == 'iso':
+                    existing = m.get('iso', cur[ns])
+                    taken = set(existing.children) if existing is not None else set()
+                    nm = r.choice(('C%d' % i, 'CH%02d' % i, 'SAME', 'DEEP'))
+                    if nm in taken:
+                        nm = 'C%d%s' % (i, ''.join(r.choice(DCHARS) for _ in range(3)))
+                    if nm in taken:
+                        continue
+                    if m.depth(cur[ns]) >= lim:
+                        continue
+                    op['iso'] = M.join(cur[ns], nm)
+                    if m.rr:
+                        used_rr = {ch.rr for ch in existing.children.values()} if existing is not None else set()
+                        rn = r.choice(('c%d' % i, 'same', 'deep-%d' % i))
+                        if rn in used_rr:
+                            rn = 'c%d-%d' % (i, r.randint(0, 999999))
+                        op['rr'] = rn
+                else:
+                    existing = m.get(ns, cur[ns])
+                    taken = set(existing.children) if existing is not None else set()
+                    nm = r.choice(('c%d' % i, 'same', 'deep %d' % i))
+                    if nm in taken:
+                        nm = 'c%d-%d' % (i, r.randint(0, 999999))
+                    if m.depth(cur[ns]) >= lim:
+                        continue
+                    op[ns] = M.join(cur[ns], nm)
+            if len(op) == 1:
+                break
+            out.append(op)
+            for ns in nss:
+                if ns in op:
+                    cur[ns] = op[ns]
         return out or None
 
     def g_mass_dirs(self):
